@@ -23,7 +23,7 @@ for p in props:
     if p["id"] not in claims["claimed"]:
         na.append({"property_id": p["id"], "reason": claims["not_applicable"].get(p["id"], "check not yet implemented in this revision; no claim made")})
 m = {"version": 1,
-     "setup_cmd": "for h in harness harness-udp harness-codec harness-async; do (cd $h && cargo build --release --offline) || exit 1; done && cd spec && for f in *.tla; do tla-sany $f >/dev/null || exit 1; done",
+     "setup_cmd": "for h in harness harness-udp harness-codec harness-async; do (cd $h && cargo build --release --offline) || exit 1; done && cd spec && for f in *.tla; do case $f in *Ind.tla) continue;; esac; tla-sany $f >/dev/null || exit 1; done",
      "hooks": {"guard": "cargo feature `verif-hooks` of quinn-proto (off by default)",
                "enable": "harness/qv-core, harness-codec and harness-async depend on /repo/quinn-proto by path with features=[\"bloom\",\"verif-hooks\"]; every check rebuilds its harness from /repo's working tree",
                "baseline_off_cmd": "cd /repo && cargo test --workspace --no-fail-fast --offline",
